@@ -21,6 +21,8 @@ func runC14(p *core.Prog, r *core.Report) {
 	// R14.3: Paillier operations never overwrite their operands nor return them (homomorphic ops yield new ciphertexts)
 	noArgMutation(c, "R14.3", "crypto/paillier")
 	c.r.Floor("R14.3", 14)
+	aliasedInPlaceUpdates(c, "RA.1", "crypto/paillier", "common")
+	c14EdgeValues(c, "R14.4")
 }
 
 func c14Fresh(c *ctx) {
